@@ -160,7 +160,14 @@ bool CommonLoop::subscribeSignal(int signo, SignalSubscribuer *who)
 
 bool CommonLoop::unsubscribeSignal(int signo, SignalSubscribuer *who)
 {
-    auto &this_signal_subscribers = all_signals_subscribers_[signo];
+    //! 如果 who 并没有订阅过该信号，则什么都不用做。
+    //! 否则下面会去还原一个从未保存过的信号处置（即把它设成 SIG_DFL），甚至访问已销毁的读事件
+    auto subscribers_iter = all_signals_subscribers_.find(signo);
+    if (subscribers_iter == all_signals_subscribers_.end() ||
+        subscribers_iter->second.find(who) == subscribers_iter->second.end())
+        return true;
+
+    auto &this_signal_subscribers = subscribers_iter->second;
     this_signal_subscribers.erase(who);          //! 将订阅信息删除
     if (!this_signal_subscribers.empty())        //! 检查本Loop中是否已经没有SignalSubscribuer订阅该信号了
         return true;    //! 如果还有，就到此为止
